@@ -109,3 +109,18 @@ def iscan(registry, data: bytes, depth: int):
     md = Multidecoder(instrument(registry, log) or [lambda v: []])
     tree = md.scan(data, depth)
     return tree, log
+
+
+def abs_nodes(tree):
+    """(node, absolute start in the root value) for every node reachable from the root through undecoded contexts."""
+    out = []
+
+    def rec(n, base):
+        for c in n.children:
+            a = base + c.start
+            out.append((c, a))
+            if c.value.lower() == n.value[c.start : c.end].lower():
+                rec(c, a)
+
+    rec(tree, 0)
+    return out
